@@ -56,6 +56,8 @@ def choose_branch(n, d, names, tuple_notation=True):
     (a datum conforming to both a record branch and a non-record branch)."""
     brs = n["branches"]
     if isinstance(d, tuple) and tuple_notation:
+        if len(d) != 2:
+            raise SpecError("a tuple that is not a (name, value) hint")
         name, val = d
         for i, b in enumerate(brs):
             if branch_name(b, names) == name:
